@@ -49,7 +49,7 @@ type Rule struct {
 	Xid    string `json:"xid,omitempty"`
 	Skip   int    `json:"skip,omitempty"`
 	Count  int    `json:"count,omitempty"`
-	Action string `json:"action"`         // fail | transport | noreply | hook | lock-conflict
+	Action string `json:"action"`         // fail | fail-nocode (failed result, error code Unknown) | transport | noreply | hook | lock-conflict
 	Hook   string `json:"hook,omitempty"` // action hook: name of the callback run BEFORE the request is answered normally
 	seen   int
 	fired  int
@@ -326,14 +326,22 @@ func (s *Stub) sync(msg interface{}) (interface{}, error) {
 
 // answer computes the normal (or failure-result) reply; s.mu held.
 func (s *Stub) answer(msg interface{}, ev *Event, action string) interface{} {
-	fail := action == "fail"
+	fail := action == "fail" || action == "fail-nocode"
 	if fail {
 		ev.Outcome = "failed"
+	}
+	// fail-nocode: ResultCode Failed with a message but TransactionErrorCode Unknown (what a coordinator
+	// sends for an exception that is not a TransactionException)
+	nocode := func(c serrors.TransactionErrorCode) serrors.TransactionErrorCode {
+		if action == "fail-nocode" {
+			return serrors.TransactionErrorCodeUnknown
+		}
+		return c
 	}
 	switch m := msg.(type) {
 	case message.GlobalBeginRequest:
 		if fail {
-			return message.GlobalBeginResponse{AbstractTransactionResponse: failResult("tcstub: begin failed", serrors.TransactionErrorCodeBeginFailed)}
+			return message.GlobalBeginResponse{AbstractTransactionResponse: failResult("tcstub: begin failed", nocode(serrors.TransactionErrorCodeBeginFailed))}
 		}
 		s.nextXid++
 		xid := fmt.Sprintf("127.0.0.1:8091:%d", s.nextXid)
@@ -380,7 +388,7 @@ func (s *Stub) answer(msg interface{}, ev *Event, action string) interface{} {
 		return message.GlobalReportResponse{AbstractGlobalEndResponse: message.AbstractGlobalEndResponse{AbstractTransactionResponse: okResult(), GlobalStatus: m.GlobalStatus}}
 	case message.BranchRegisterRequest:
 		if fail {
-			return message.BranchRegisterResponse{AbstractTransactionResponse: failResult("tcstub: branch register failed", serrors.TransactionErrorCodeBranchRegisterFailed)}
+			return message.BranchRegisterResponse{AbstractTransactionResponse: failResult("tcstub: branch register failed", nocode(serrors.TransactionErrorCodeBranchRegisterFailed))}
 		}
 		g := s.globals[m.Xid]
 		if g == nil || g.Status != int(message.GlobalStatusBegin) {
@@ -416,7 +424,7 @@ func (s *Stub) answer(msg interface{}, ev *Event, action string) interface{} {
 		return message.BranchRegisterResponse{AbstractTransactionResponse: okResult(), BranchId: b.ID}
 	case message.BranchReportRequest:
 		if fail {
-			return message.BranchReportResponse{AbstractTransactionResponse: failResult("tcstub: branch report failed", serrors.TransactionErrorCodeBranchReportFailed)}
+			return message.BranchReportResponse{AbstractTransactionResponse: failResult("tcstub: branch report failed", nocode(serrors.TransactionErrorCodeBranchReportFailed))}
 		}
 		if b := s.findBranch(m.Xid, m.BranchId); b != nil {
 			b.Status = int(m.Status)
